@@ -208,6 +208,9 @@ def aux_plans():
     for p in out:
         if p.kinds in (T, TC):
             p.kinds = p.kinds + ('rn2d', 'discr2d')
+            if p.mid.startswith('grad'):
+                # round 5: the default bridge from THRESHOLD_SMALL = 100 entries on (plain copy)
+                p.kinds = p.kinds + ('rnbig',)
     return out
 
 
@@ -267,6 +270,9 @@ def make_space(kind, rng):
         return odl.rn(n, weighting=c), n, 1, c
     if kind == 'rn2p':
         n = rng.choice([2, 3, 4, 6])
+        return odl.rn(n), n, 1, 1.0
+    if kind == 'rnbig':
+        n = rng.choice([100, 101, 128])
         return odl.rn(n), n, 1, 1.0
     if kind == 'rnw':
         n = rng.choice([1, 2, 3, 5])
@@ -1100,6 +1106,8 @@ def run_prog_case(ctx, c, lines, pending):
 def aux_branch_hits(ctx, c, st):
     """Branches of the round-4 bodies, determined from the INPUT (not from the model)."""
     mid, x = c['plan'].mid, np.asarray(c['x'], dtype=float)
+    if mid.startswith('grad') and mid != 'gradGroupL1':
+        ctx.hit('aux-branch/bridge/' + ('size>=100(copy)' if x.size >= 100 else 'size<100(1*r+0*r)'))
     if mid == 'gradL2':
         ctx.hit('aux-branch/gradL2/' + ('norm==0(zero)' if not np.any(x) else 'norm!=0(x/norm)'))
     elif mid == 'gradKLCE':
@@ -1307,6 +1315,479 @@ def functional_cases(ctx, reps, seeds=None):
                     xs = len(flat(sp.zero()))
                     yield ('functional {}.proximal space={}'.format(name, kind), mkP, sp,
                            grid(rng, int(xs)), [('g', g), ('y', yv)], rs)
+
+
+# ---------------------------------------------------------------------------
+# round 5: expression classes of operator.py that the proximal calculus never builds, their
+# adjoint / inverse / derivative, and the shipped solvers that contain the aliased call sites
+
+def expr_cases(ctx, reps, seeds=None):
+    """Operators with domain == range built by EVERY arithmetic class / dunder of
+    odl/operator/operator.py over proximal and default_ops leaves, and the operators their
+    `adjoint`, `inverse`, `derivative(x0)` return: the oracle (aliased vs non-aliased vs
+    out-of-place) on each."""
+    import odl
+    import random
+    from odl.operator import operator as O
+    po = _po()
+    for rep in range(reps if seeds is None else len(seeds)):
+        rs = ctx.rng.getrandbits(48) if seeds is None else seeds[rep]
+        rng = random.Random(rs)
+        for kind in ('rn', 'discr'):
+            space, n, mc, w = make_space(kind, rng)
+            N = n * mc
+            vec = make_elem(space, grid(rng, N))
+            pos = make_elem(space, np.abs(grid(rng, N)) + 0.5)
+            x0 = make_elem(space, grid(rng, N))
+            c = rng.choice([2.0, -0.5, 4.0])
+            A = po.proximal_l1(space)(0.5)              # non-linear, in-place `_call`
+            H = po.proximal_huber(space, 0.5)(1.0)
+            Pw = odl.PowerOperator(space, 2)            # non-linear with derivative
+            S = odl.ScalingOperator(space, c)
+            S2 = odl.ScalingOperator(space, 0.25)
+            M = odl.MultiplyOperator(pos)
+            ip = odl.InnerProductOperator(vec)          # linear functional
+            l2 = odl.solvers.L2NormSquared(space)       # non-linear functional
+            table = [
+                ('A*scalar', lambda: A * c), ('A*0', lambda: A * 0.0),
+                ('(A*scalar)*scalar', lambda: (A * c) * 2.0),
+                ('RightScalarMult(A,c,tmp)', lambda: O.OperatorRightScalarMult(A, c, tmp=space.element())),
+                ('A*vec', lambda: A * vec), ('vec*A', lambda: vec * A),
+                ('A/scalar', lambda: A / c), ('scalar*A', lambda: c * A),
+                ('-A', lambda: -A), ('+A', lambda: +A),
+                ('A+H', lambda: A + H), ('A-H', lambda: A - H),
+                ('OperatorSum(A,H,tmps)', lambda: O.OperatorSum(A, H, space.element(), space.element())),
+                ('vec+A', lambda: vec + A), ('vec-A', lambda: vec - A), ('A+vec', lambda: A + vec),
+                ('A@S', lambda: A @ S), ('S**3', lambda: S ** 3), ('S**1', lambda: S ** 1),
+                ('PointwiseProduct(A,H)', lambda: O.OperatorPointwiseProduct(A, H)),
+                ('vec*functional', lambda: vec * l2), ('vec*ip', lambda: vec * ip),
+                ('OperatorComp(A,H,tmp)', lambda: O.OperatorComp(A, H, tmp=space.element())),
+                ('RightScalarMult(RightScalarMult(A,c),2)',
+                 lambda: O.OperatorRightScalarMult(O.OperatorRightScalarMult(A, c), 2.0)),
+                ('A+scalar', lambda: A + 2.0), ('OperatorVectorSum(A,vec)', lambda: O.OperatorVectorSum(A, vec)),
+                # adjoint / inverse of the classes over linear leaves
+                ('(S*M).adjoint', lambda: (S * M).adjoint), ('(S*S2).inverse', lambda: (S * S2).inverse),
+                ('(S+M).adjoint', lambda: (S + M).adjoint),
+                ('(c*M).adjoint', lambda: (c * M).adjoint), ('(c*S).inverse', lambda: (c * S).inverse),
+                ('RightScalarMult(M,c).adjoint', lambda: O.OperatorRightScalarMult(M, c).adjoint),
+                ('RightScalarMult(S,c).inverse', lambda: O.OperatorRightScalarMult(S, c).inverse),
+                ('RightScalarMult(M,c)', lambda: O.OperatorRightScalarMult(M, c)),
+                ('(M*vec).adjoint', lambda: O.OperatorRightVectorMult(M, pos).adjoint),
+                ('(S*vec).inverse', lambda: O.OperatorRightVectorMult(S, pos).inverse),
+                ('(vec*M).adjoint', lambda: O.OperatorLeftVectorMult(M, pos).adjoint),
+                ('(vec*S).inverse', lambda: O.OperatorLeftVectorMult(S, pos).inverse),
+                ('(vec*ip).adjoint', lambda: (vec * ip).adjoint),
+                ('M.adjoint', lambda: M.adjoint), ('S.inverse', lambda: S.inverse),
+                # derivatives
+                ('(Pw*c).derivative', lambda: (Pw * c).derivative(x0)),
+                ('(c*Pw).derivative', lambda: (c * Pw).derivative(x0)),
+                ('(Pw+Pw).derivative', lambda: (Pw + Pw).derivative(x0)),
+                ('(Pw+vec).derivative', lambda: (Pw + vec).derivative(x0)),
+                ('(Pw*Pw).derivative', lambda: (Pw * Pw).derivative(x0)),
+                ('(Pw*vec).derivative', lambda: (Pw * vec).derivative(x0)),
+                ('(vec*Pw).derivative', lambda: (vec * Pw).derivative(x0)),
+                ('PointwiseProduct(Pw,Pw).derivative',
+                 lambda: O.OperatorPointwiseProduct(Pw, Pw).derivative(x0)),
+                ('(vec*functional).derivative', lambda: (vec * l2).derivative(x0)),
+                ('S.derivative', lambda: S.derivative(x0)),
+            ]
+            for name, mk in table:
+                yield ('expr {} space={}'.format(name, kind), mk, space, grid(rng, N),
+                       [('vec', vec), ('pos', pos), ('x0', x0)], rs)
+
+
+EXPR_NAMES = None
+
+
+def expr_names():
+    global EXPR_NAMES
+    if EXPR_NAMES is None:
+        sub = core.Ctx('C10', 'quick', 0)
+        EXPR_NAMES = sorted({k.split(' space=')[0].split(' ', 1)[1]
+                             for k, _, _, _, _, _ in expr_cases(sub, 1, seeds=[1])})
+    return EXPR_NAMES
+
+
+def _ref_solver(name, x, y, f, g, L, phi, par, niter, l=None):
+    """The documented recursion of a solver written with OUT-OF-PLACE calls only (fresh
+    objects everywhere): what the in-place / aliased implementation must reproduce.
+    forward_backward_pd follows the code as it is (`x_old = x` is the same object, finding of
+    C12: y = x after the proximal step)."""
+    x = x.copy()
+    if name == 'admm_linearized':
+        tau, sigma = par
+        z, u = L.range.zero(), L.range.zero()
+        for _ in range(niter):
+            x = f.proximal(tau)(x - (tau / sigma) * L.adjoint(L(x) + u - z))
+            z = g.proximal(sigma)(L(x) + u)
+            u = L(x) + u - z
+        return x
+    if name == 'dca':
+        for _ in range(niter):
+            x = f.convex_conj.gradient(g.gradient(x))
+        return x
+    if name == 'prox_dca':
+        gamma, = par
+        for _ in range(niter):
+            x = f.proximal(gamma)(x + gamma * g.gradient(x))
+        return x
+    if name == 'doubleprox_dc':
+        gamma, mu = par
+        y = y.copy()
+        for _ in range(niter):
+            x = f.proximal(gamma)(x + gamma * (L.adjoint(y) - phi.gradient(x)))
+            y = g.convex_conj.proximal(mu)(y + mu * L(x))
+        return np.concatenate([flat(x), flat(y)])
+    if name == 'forward_backward_pd':
+        tau, sigma = par
+        v = [Li.range.zero() for Li in L]
+        for _ in range(niter):
+            tmp = phi.gradient(x) + sum(Li.adjoint(vi) for Li, vi in zip(L, v))
+            x = f.proximal(tau)(x - tau * tmp)
+            yy = 2.0 * x - x          # the code: x_old is x itself
+            for i in range(len(L)):
+                t2 = sigma[i] * (L[i](yy) - (l[i].convex_conj.gradient(v[i]) if l else 0 * v[i]))
+                v[i] = g[i].convex_conj.proximal(sigma[i])(v[i] + t2)
+        return x
+    raise KeyError(name)
+
+
+SOLVERS = ('admm_linearized', 'admm_linearized_simple', 'dca', 'prox_dca', 'doubleprox_dc',
+           'doubleprox_dc_simple', 'forward_backward_pd', 'forward_backward_pd[l]')
+
+
+def solver_case(rs, name, kind):
+    """Everything of one solver case is a function of (rs, name, kind)."""
+    import odl
+    import random
+    import hashlib
+    S = odl.solvers
+    rng = random.Random(hashlib.sha256('{}:{}:{}'.format(rs, name, kind).encode()).digest())
+    space, n, mc, w = make_space(kind, rng)
+    N = n * mc
+    gel = make_elem(space, grid(rng, N))
+    xv = grid(rng, N)
+    yv = grid(rng, N)
+    fs = [('L1', lambda: S.L1Norm(space)), ('L2sq-t', lambda: S.L2NormSquared(space).translated(gel)),
+          ('Box', lambda: S.IndicatorBox(space, -0.5, 1.0)), ('Huber', lambda: S.Huber(space, 0.5)),
+          ('L2', lambda: S.L2Norm(space))]
+    smooth = [('L2sq', lambda: S.L2NormSquared(space)), ('Huber', lambda: S.Huber(space, 0.5)),
+              ('L2sq-t', lambda: S.L2NormSquared(space).translated(gel))]
+    Ls = [('Id', lambda: odl.IdentityOperator(space)), ('Scal', lambda: odl.ScalingOperator(space, 0.5)),
+          ('Mult', lambda: odl.MultiplyOperator(make_elem(space, np.abs(gel.asarray().ravel()) * 0.25 + 0.25)))]
+    fn, f = rng.choice(fs)
+    gn, g = rng.choice(fs)
+    pn, phi = rng.choice(smooth)
+    Ln, L = rng.choice(Ls)
+    niter = rng.choice([1, 2, 3, 5])
+    tau, sigma = rng.choice([0.25, 0.5, 1.0]), rng.choice([0.5, 1.0, 2.0])
+    base = name.split('[')[0].replace('_simple', '')
+    if base in ('dca',):
+        fn, f = ('L2sq-t', fs[1][1])         # f* must have a gradient
+        gn, g = rng.choice(smooth)
+    if base == 'prox_dca':
+        gn, g = rng.choice(smooth)
+    desc = 'f={} g={} phi={} L={} niter={} tau={} sigma={}'.format(fn, gn, pn, Ln, niter, tau, sigma)
+    return dict(space=space, x=xv, y=yv, f=f(), g=g(), phi=phi(), L=L(), niter=niter, tau=tau,
+                sigma=sigma, desc=desc, base=base, withl=name.endswith('[l]'), N=N,
+                lfun=S.L2NormSquared(space))
+
+
+class _Solvers(object):
+    """odl.solvers plus the non-exported `_simple` variants of the anchored modules."""
+
+    def __getattr__(self, nm):
+        import odl
+        from odl.solvers.nonsmooth import admm, difference_convex
+        for mod in (odl.solvers, admm, difference_convex):
+            if hasattr(mod, nm):
+                return getattr(mod, nm)
+        raise AttributeError(nm)
+
+
+def run_solver_case(ctx, rs, name, kind):
+    """The shipped solver (in-place, with its aliased `prox(x, out=x)` sites) against the same
+    recursion computed with out-of-place calls only. Returns a problem string or None."""
+    import odl
+    S = _Solvers()
+    c = solver_case(rs, name, kind)
+    space = c['space']
+    x = make_elem(space, c['x'])
+    y = make_elem(space, c['y'])
+    f, g, phi, L = c['f'], c['g'], c['phi'], c['L']
+    base = c['base']
+    seen = []
+    cb = {'callback': (lambda it: seen.append(it is x))} if rs % 2 and name != 'doubleprox_dc_simple' \
+        else {}
+    try:
+        if base == 'admm_linearized':
+            par = (c['tau'], c['sigma'])
+            ref = flat(_ref_solver(base, x, None, f, g, L, None, par, c['niter']))
+            getattr(S, name)(x, f, g, L, c['tau'], c['sigma'], c['niter'], **cb)
+            got = flat(x)
+        elif base == 'dca':
+            ref = flat(_ref_solver(base, x, None, f, g, None, None, (), c['niter']))
+            S.dca(x, f, g, c['niter'], **cb)
+            got = flat(x)
+        elif base == 'prox_dca':
+            ref = flat(_ref_solver(base, x, None, f, g, None, None, (c['tau'],), c['niter']))
+            S.prox_dca(x, f, g, c['niter'], c['tau'], **cb)
+            got = flat(x)
+        elif base == 'doubleprox_dc':
+            ref = _ref_solver(base, x, y, f, g, L, phi, (c['tau'], c['sigma']), c['niter'])
+            getattr(S, name)(x, y, f, phi, g, L, c['niter'], c['tau'], c['sigma'], **cb)
+            got = np.concatenate([flat(x), flat(y)])
+        else:
+            Ls2 = [L, odl.IdentityOperator(space)]
+            gs = [g, S.L1Norm(space)]
+            sig = [c['sigma'], 0.5]
+            ls = [c['lfun'], S.L2NormSquared(space).translated(make_elem(space, c['y']))] \
+                if c['withl'] else None
+            ref = flat(_ref_solver(base, x, None, f, gs, Ls2, phi, (c['tau'], sig), c['niter'],
+                                   l=ls))
+            kw = dict({'l': ls} if ls else {}, **cb)
+            S.forward_backward_pd(x, f, gs, Ls2, phi, c['tau'], sig, c['niter'], **kw)
+            got = flat(x)
+    except Exception as e:  # noqa
+        return c, 'raises {}: {}'.format(type(e).__name__, str(e)[:120]), None
+    if cb and (len(seen) != c['niter'] or not all(seen)):
+        return c, 'callback called {} times in {} iterations, with the iterate object: {}'.format(
+            len(seen), c['niter'], seen), got
+    if not same(got, ref, True):
+        bad = int(np.argmax(~np.isclose(got, ref, rtol=1e-9, atol=1e-12, equal_nan=True)))
+        return c, ('in-place solver differs from the out-of-place recursion at flat index {}: got '
+                   '{!r}, reference {!r}'.format(bad, float(got[bad]), float(ref[bad]))), got
+    return c, None, got
+
+
+def solver_validation(ctx):
+    """Argument validation of the solvers: must raise and leave `x` untouched."""
+    import odl
+    S = odl.solvers
+    sp = odl.rn(3)
+    f, L = S.L1Norm(sp), odl.IdentityOperator(sp)
+    sp2 = odl.rn(2)
+    bad = [
+        ('admm tau<=0', lambda x: S.admm_linearized(x, f, f, L, 0.0, 1.0, 2), ValueError),
+        ('admm sigma<=0', lambda x: S.admm_linearized(x, f, f, L, 1.0, -1.0, 2), ValueError),
+        ('admm niter<0', lambda x: S.admm_linearized(x, f, f, L, 1.0, 1.0, -1), ValueError),
+        ('admm niter non-integer', lambda x: S.admm_linearized(x, f, f, L, 1.0, 1.0, 1.5), ValueError),
+        ('admm callback', lambda x: S.admm_linearized(x, f, f, L, 1.0, 1.0, 1, callback=3), TypeError),
+        ('dca domains', lambda x: S.dca(x, f, S.L1Norm(sp2), 1), ValueError),
+        ('prox_dca domains', lambda x: S.prox_dca(x, f, S.L1Norm(sp2), 1, 1.0), ValueError),
+        ('doubleprox phi domain', lambda x: S.doubleprox_dc(
+            x, x.copy(), f, S.L2NormSquared(sp2), f, L, 1, 1.0, 1.0), ValueError),
+        ('doubleprox K domain', lambda x: S.doubleprox_dc(
+            x, x.copy(), f, S.L2NormSquared(sp), f, odl.IdentityOperator(sp2), 1, 1.0, 1.0), ValueError),
+        ('doubleprox K range', lambda x: S.doubleprox_dc(
+            x, x.copy(), f, S.L2NormSquared(sp), S.L1Norm(sp2), L, 1, 1.0, 1.0), ValueError),
+        ('fbpd L not operators', lambda x: S.forward_backward_pd(
+            x, f, [f], [3], S.L2NormSquared(sp), 1.0, [1.0], 1), ValueError),
+        ('fbpd L non-linear', lambda x: S.forward_backward_pd(
+            x, f, [f], [odl.PowerOperator(sp, 2)], S.L2NormSquared(sp), 1.0, [1.0], 1), ValueError),
+        ('fbpd x not in domain', lambda x: S.forward_backward_pd(
+            x, f, [f], [odl.IdentityOperator(sp2)], S.L2NormSquared(sp), 1.0, [1.0], 1), ValueError),
+        ('fbpd len(sigma)', lambda x: S.forward_backward_pd(
+            x, f, [f], [L], S.L2NormSquared(sp), 1.0, [1.0, 2.0], 1), ValueError),
+        ('fbpd len(g)', lambda x: S.forward_backward_pd(
+            x, f, [f, f], [L], S.L2NormSquared(sp), 1.0, [1.0], 1), ValueError),
+        ('fbpd len(l)', lambda x: S.forward_backward_pd(
+            x, f, [f], [L], S.L2NormSquared(sp), 1.0, [1.0], 1, l=[f, f]), ValueError),
+        ('fbpd unexpected kwarg', lambda x: S.forward_backward_pd(
+            x, f, [f], [L], S.L2NormSquared(sp), 1.0, [1.0], 1, foo=1), TypeError),
+    ]
+    for name, call, exc in bad:
+        x = sp.element([1.0, -2.0, 0.5])
+        ctx.hit('solver-validation/' + name)
+        try:
+            call(x)
+            outcome = 'no exception'
+        except exc:
+            outcome = 'ok'
+        except Exception as e:  # noqa
+            outcome = 'raised {} instead of {}'.format(type(e).__name__, exc.__name__)
+        ctx.case(None)
+        if outcome != 'ok' or not np.array_equal(flat(x), [1.0, -2.0, 0.5]):
+            ctx.violation('solver-validation ' + name,
+                          '{}; x afterwards = {}'.format(outcome, flat(x)),
+                          {'kind': 'solver-validation', 'name': name})
+
+
+def solver_stream(ctx, reps):
+    solver_validation(ctx)
+    for rep in range(reps):
+        rs = ctx.rng.getrandbits(48)
+        for name in SOLVERS:
+            for kind in ('rn', 'discr'):
+                c, problem, got = run_solver_case(ctx, rs, name, kind)
+                ctx.hit('solver/' + name)
+                ctx.case(('solver', name, kind, c['desc'].split(' niter')[0])
+                         if got is not None and np.any(got != 0) else None)
+                if problem and problem.startswith('raises'):
+                    ctx.err('solver:' + problem.split(':')[0])
+                    ctx.extra.setdefault('solver_cases_raising', {})[
+                        '{} {}'.format(name, c['desc'])] = problem
+                elif problem:
+                    ctx.violation('solver {} space={} {}'.format(name, kind, c['desc']), problem,
+                                  {'kind': 'solver', 'rs': rs, 'name': name, 'space': kind})
+
+
+class FnOp(object):
+    """A module-level projection `fn(x, radius, out=None)` with the calling convention of an
+    operator."""
+
+    def __init__(self, fn, space, r):
+        self.fn, self.domain, self.range, self.r = fn, space, space, r
+
+    def __call__(self, x, out=None):
+        return self.fn(x, self.r, out)
+
+
+def ReturnsArray(space):
+    """An operator whose out-of-place `_call` returns a plain ndarray (cast by `Operator.__call__`
+    with `range.element`, written through the default bridge when `out` is given)."""
+    import odl
+
+    class _ReturnsArray(odl.Operator):
+        def __init__(self):
+            super(_ReturnsArray, self).__init__(space, space)
+
+        def _call(self, x):
+            return 2.0 * x.asarray() + 1.0
+    return _ReturnsArray()
+
+
+def option_cases(ctx, reps, seeds=None):
+    """Construction options of the factories of proximal_operators.py that no other stream uses
+    (array-like bounds / step sizes, sequences of step sizes through the calculus,
+    proximal_nonnegativity, proj_l1 / proj_simplex with and without `out`): the oracle on each."""
+    import odl
+    import random
+    po = _po()
+    for rep in range(reps if seeds is None else len(seeds)):
+        rs = ctx.rng.getrandbits(48) if seeds is None else seeds[rep]
+        rng = random.Random(rs)
+        for kind in ('rn', 'discr'):
+            space, n, mc, w = make_space(kind, rng)
+            N = n * mc
+            ps = odl.ProductSpace(space, 2)
+            lo = [-0.5 - 0.125 * i for i in range(N)]
+            up = np.array([0.75 + 0.25 * i for i in range(N)])
+            sigs = [rng.choice([0.5, 1.0, 2.0]) for _ in range(N)]
+            comb = po.combine_proximals(po.proximal_l1(space), po.proximal_l2_squared(space))
+            r = rng.choice([0.5, 1.0, 2.0])
+            table = [
+                ('nonnegativity', lambda: po.proximal_nonnegativity(space)(1.0), space),
+                ('box array-like bounds',
+                 lambda: po.proximal_box_constraint(space, lower=lo, upper=up)(1.0), space),
+                ('ccL1 sigma array-like', lambda: po.proximal_convex_conj_l1(space)(sigs), space),
+                ('convex_conj(l1)[list of point-wise sigmas]',
+                 lambda: po.proximal_convex_conj(po.proximal_l1(space))(sigs), space),
+                ('arg_scaling(combine)[list sigma]',
+                 lambda: po.proximal_arg_scaling(comb, 2.0)([0.5, 2.0]), ps),
+                ('oop _call returning an array', lambda: ReturnsArray(space), space),
+                ('vec@Id', lambda: (make_elem(space, up) @ odl.IdentityOperator(space)), space),
+                ('proj_l1', lambda: FnOp(po.proj_l1, space, r), space),
+                ('proj_simplex', lambda: FnOp(po.proj_simplex, space, r), space),
+            ]
+            for name, mk, sp in table:
+                yield ('option {} space={}'.format(name, kind), mk, sp,
+                       grid(rng, len(flat(sp.zero()))), [], rs)
+
+
+OPTION_NAMES = ('oop _call returning an array', 'vec@Id', 'nonnegativity', 'box array-like bounds', 'ccL1 sigma array-like',
+                'convex_conj(l1)[list of point-wise sigmas]', 'arg_scaling(combine)[list sigma]',
+                'proj_l1', 'proj_simplex')
+
+
+def rejection_cases():
+    """(name, callable(x, out), expected exception): invalid constructions / calls of the anchored
+    code. Each must raise exactly that exception and leave `x` and `out` untouched."""
+    import odl
+    from odl.operator import operator as O
+    po = _po()
+    S = odl.solvers
+    sp, sp2 = odl.rn(3), odl.rn(2)
+    g2 = sp2.element([1.0, 2.0])
+    A = po.proximal_l1(sp)(0.5)
+    A2 = po.proximal_l1(sp2)(0.5)
+    M = odl.MultiplyOperator(sp.element([1.0, 2.0, 4.0]))
+    fnl = S.L1Norm(sp)
+
+    class ReturnsOther(odl.Operator):
+        def __init__(self):
+            super(ReturnsOther, self).__init__(sp, sp)
+
+        def _call(self, x, out):
+            return x.copy()
+
+    cases = [
+        ('arg_scaling complex', lambda x, o: po.proximal_arg_scaling(po.proximal_l1(sp), 1 + 1j), ValueError),
+        ('quadratic_perturbation a<0', lambda x, o: po.proximal_quadratic_perturbation(po.proximal_l1(sp), -1.0), ValueError),
+        ('quadratic_perturbation u', lambda x, o: po.proximal_quadratic_perturbation(po.proximal_l1(sp), 1.0, u=[1, 2, 3]), TypeError),
+        ('box lower>upper', lambda x, o: po.proximal_box_constraint(sp, lower=2.0, upper=1.0), ValueError),
+        ('Operator.__call__ out not in range', lambda x, o: A(x, out=sp2.element([7.0, 7.0])), odl.OpRangeError),
+        ('Operator.__call__ out for functional', lambda x, o: fnl(x, out=o), TypeError),
+        ('Operator.__call__ returns other than out', lambda x, o: ReturnsOther()(x, out=o), ValueError),
+        ('Operator.__call__ x not castable', lambda x, o: A('abc', out=o), odl.OpDomainError),
+        ('Operator.__call__ x not castable oop', lambda x, o: A([1.0, 2.0]), odl.OpDomainError),
+        ('Operator.__init__ domain', lambda x, o: odl.Operator(3, sp), TypeError),
+        ('Operator.__init__ range', lambda x, o: odl.Operator(sp, 'r'), TypeError),
+        ('Operator.__init__ linear non-LinearSpace domain',
+         lambda x, o: odl.Operator(odl.IntervalProd(0, 1), sp, linear=True), TypeError),
+        ('Operator.__init__ linear non-LinearSpace range',
+         lambda x, o: odl.Operator(sp, odl.IntervalProd(0, 1), linear=True), TypeError),
+        ('A + str', lambda x, o: A + 'abc', TypeError),
+        ('Operator.adjoint not implemented', lambda x, o: odl.Operator(sp, sp, linear=True).adjoint,
+         odl.OpNotImplementedError),
+        ('Operator.inverse not implemented', lambda x, o: odl.Operator(sp, sp, linear=True).inverse,
+         odl.OpNotImplementedError),
+        ('Operator._call not implemented', lambda x, o: odl.Operator(sp, sp)(x, out=o),
+         NotImplementedError),
+        ('OperatorSum ranges', lambda x, o: O.OperatorSum(A, odl.Operator(sp, sp2)), odl.OpTypeError),
+        ('OperatorSum domains', lambda x, o: O.OperatorSum(A, odl.Operator(sp2, sp)), odl.OpTypeError),
+        ('OperatorSum tmp_ran', lambda x, o: O.OperatorSum(A, A, tmp_ran=g2), odl.OpRangeError),
+        ('OperatorSum tmp_dom', lambda x, o: O.OperatorSum(A, A, tmp_dom=g2), odl.OpDomainError),
+        ('PointwiseProduct ranges', lambda x, o: O.OperatorPointwiseProduct(A, odl.Operator(sp, sp2)), odl.OpTypeError),
+        ('PointwiseProduct domains', lambda x, o: O.OperatorPointwiseProduct(A, odl.Operator(sp2, sp)), odl.OpTypeError),
+        ('RightScalarMult scalar', lambda x, o: O.OperatorRightScalarMult(A, 'a'), TypeError),
+        ('RightScalarMult tmp', lambda x, o: O.OperatorRightScalarMult(A, 2.0, tmp=g2), odl.OpDomainError),
+        ('admm L not operator', lambda x, o: S.admm_linearized(x, fnl, fnl, 3, 1.0, 1.0, 1), TypeError),
+        ('admm x not in L.domain', lambda x, o: S.admm_linearized(x, fnl, fnl, odl.IdentityOperator(sp2), 1.0, 1.0, 1), odl.OpDomainError),
+    ]
+    for nm, fac in (('l2', po.proximal_l2), ('l2_squared', po.proximal_l2_squared),
+                    ('cc_l2_squared', po.proximal_convex_conj_l2_squared),
+                    ('cc_l1', po.proximal_convex_conj_l1), ('l1', po.proximal_l1),
+                    ('cc_kl', po.proximal_convex_conj_kl),
+                    ('cc_kl_cross_entropy', po.proximal_convex_conj_kl_cross_entropy)):
+        # (proximal_l2_squared has no check in the factory: its `_call` raises, before writing)
+        cases.append(('g not in space ' + nm,
+                      lambda x, o, fac=fac: fac(sp, g=g2)(1.0)(x, out=o), TypeError))
+    psp = odl.ProductSpace(sp, 2)
+    for nm, fac in (('cc_l1_l2', po.proximal_convex_conj_l1_l2), ('l1_l2', po.proximal_l1_l2)):
+        cases.append(('g not in space ' + nm, lambda x, o, fac=fac: fac(psp, g=g2), TypeError))
+    return cases
+
+
+def rejection_stream(ctx):
+    import odl
+    sp = odl.rn(3)
+    for name, call, exc in rejection_cases():
+        x = sp.element([1.0, -2.0, 0.5])
+        o = sp.element([9.0, 9.0, 9.0])
+        ctx.hit('rejection/' + name)
+        try:
+            call(x, o)
+            outcome = 'no exception'
+        except exc:
+            outcome = 'ok'
+        except Exception as e:  # noqa
+            outcome = 'raised {}: {} instead of {}'.format(type(e).__name__, str(e)[:80], exc.__name__)
+        ctx.case(None)
+        if outcome != 'ok' or not np.array_equal(flat(x), [1.0, -2.0, 0.5]) or \
+                not np.array_equal(flat(o), [9.0, 9.0, 9.0]):
+            ctx.violation('rejection ' + name, '{}; x = {}, out = {} afterwards'.format(
+                outcome, flat(x), flat(o)), {'kind': 'rejection', 'name': name})
 
 
 def run_oracle_stream(ctx, gen, label, only=None, fixed_x=None):
@@ -1604,9 +2085,13 @@ def report_unhit(ctx):
          'aux-branch/gradKLCE/raise', 'aux-branch/gradKLCE/finite',
          'aux-branch/gradHuber/large(x/norm)', 'aux-branch/gradHuber/small(x/gamma)',
          'aux-branch/gradGroupL1/some-zero-norm', 'aux-branch/gradGroupL1/nonzero',
-         'aux-branch/absPow/p=0.5', 'aux-branch/absPow/p=2.0', 'aux-branch/absPow/p=0.25'] + \
+         'aux-branch/absPow/p=0.5', 'aux-branch/absPow/p=2.0', 'aux-branch/absPow/p=0.25',
+         'aux-branch/bridge/size>=100(copy)', 'aux-branch/bridge/size<100(1*r+0*r)'] + \
         ['prog-2d/{}/{}'.format(p.mid, k) for p in plans_2d() for k in p.kinds] + \
-        ['complex/{}/{}'.format(p.mid, p.flags or '-') for p in plans_complex()]
+        ['complex/{}/{}'.format(p.mid, p.flags or '-') for p in plans_complex()] + \
+        ['expr/' + nm for nm in expr_names()] + ['solver/' + nm for nm in SOLVERS] + \
+        ['option/' + nm for nm in OPTION_NAMES] + \
+        ['rejection/' + nm for nm, _, _ in rejection_cases()]
     unhit = [b for b in expected if not ctx.branches.get(b)]
     ctx.extra['unhit_model_branches'] = unhit
     if unhit and not ctx.quick:
@@ -1636,6 +2121,11 @@ def run(ctx):
     outs = core.run_driver('C10', lines)
     compare_model(ctx, pending, outs)
     complex_stream(ctx, 2 if ctx.quick else 20)
+    # round 5
+    run_oracle_stream(ctx, expr_cases(ctx, 1 if ctx.quick else 8), 'expr')
+    run_oracle_stream(ctx, option_cases(ctx, 1 if ctx.quick else 8), 'option')
+    rejection_stream(ctx)
+    solver_stream(ctx, 4 if ctx.quick else 25)
     report_unhit(ctx)
 
 
@@ -1695,9 +2185,23 @@ def replay(ctx, case):
         hits = [v for v in sub.violations if v['replay'].get('call') == case.get('call')] or \
             sub.violations
         return hits[0]['what'] if hits else None
-    if case.get('kind') in ('wrapper', 'functional', 'repeat') and case.get('rs') is not None:
+    if case.get('kind') == 'solver' and case.get('rs') is not None:
+        _, problem, _ = run_solver_case(sub, case['rs'], case['name'], case['space'])
+        return problem
+    if case.get('kind') == 'rejection':
+        rejection_stream(sub)
+        hits = [v for v in sub.violations if v['replay'].get('name') == case.get('name')]
+        return hits[0]['what'] if hits else None
+    if case.get('kind') == 'solver-validation':
+        solver_validation(sub)
+        hits = [v for v in sub.violations if v['replay'].get('name') == case.get('name')]
+        return hits[0]['what'] if hits else None
+    if case.get('kind') in ('wrapper', 'functional', 'repeat', 'expr', 'option') and \
+            case.get('rs') is not None:
         label = case.get('label', case['kind'])
         gen = wrapper_cases(sub, 1, seeds=[case['rs']]) if label == 'wrapper' else \
+            expr_cases(sub, 1, seeds=[case['rs']]) if label == 'expr' else \
+            option_cases(sub, 1, seeds=[case['rs']]) if label == 'option' else \
             functional_cases(sub, 1, seeds=[case['rs']])
         key = case['key']
         fixed = case['x'] if case['kind'] != 'repeat' else None
